@@ -49,9 +49,9 @@ var pieces = []string{
 	"/* ; */",                 // 14 comment-only statement
 	"select 2 from t where a", // 15 a second plain statement (distinguishable from 0)
 	// control bytes inside a string / comment / quoted identifier: harmless, part of the token
-	"select '\x00\x01'",        // 16
+	"select '\x00\x01'",       // 16
 	"select 1 /* \x1f\x7f */", // 17
-	"select `a\x01` from t",    // 18
+	"select `a\x01` from t",   // 18
 	// stand-alone control bytes: bytes no token starts with. No grammar accepts them, but the
 	// proxy still has to answer (pieces or an error), i.e. the split has to RETURN.
 	"\x00", // 19
@@ -370,10 +370,10 @@ func server_var(s *sessrig.Session) bool { return s.UserVarSet("@a") }
 
 // runCase evaluates one case. ph (may be nil) is told which part is running, so that the
 // watchdog can say where a case that never returns is stuck.
-func runCase(r *ev.Run, c tcase, session bool, ph *string) {
+func runCase(r *ev.Run, c tcase, session bool, ph func(string)) {
 	phase := func(p string) {
 		if ph != nil {
-			*ph = p
+			ph(p)
 		}
 	}
 	text := c.build()
@@ -447,7 +447,11 @@ func runPool(r *ev.Run, n int, horizon time.Duration, decode func(i int) (tcase,
 				sl.mu.Lock()
 				sl.busy, sl.start, sl.c, sl.session, sl.phase = true, time.Now(), c, session, "start"
 				sl.mu.Unlock()
-				runCase(r, c, session, &sl.phase)
+				runCase(r, c, session, func(p string) {
+					sl.mu.Lock()
+					sl.phase = p
+					sl.mu.Unlock()
+				})
 				sl.mu.Lock()
 				dead := sl.dead
 				sl.busy = false
